@@ -1,5 +1,5 @@
 (** C01 Round trip.  Only statements, each closed by [exact]; proofs live in Region/*. *)
-From FC Require Import Base.Res Index.IC Region.Region Region.Owned Region.Simple Region.Slice
+From FC Require Import Base.Res Index.IC Region.Region Region.Owned Region.Simple Region.TupleN Region.Slice
   Region.Collapse Region.Consec Region.Columns Region.History Huffman.Huffman Huffman.HuffRegion
   Model.Wire Model.Catalogue Model.CatalogueOk.
 
@@ -34,6 +34,26 @@ Proof. exact (@result_ok). Qed.
 Theorem C01_tuple2 : forall (A B : Region) (SA : RSpec A), RegionOK A -> forall SB : RSpec B, RegionOK B ->
   RegionOK (tuple2 A B).
 Proof. exact (@tuple2_ok). Qed.
+(** Tuple regions of higher arity, written flat as the macro expands them (arities 3 and 5 are the ones the
+    catalogue runs): the contract holds for them, transported along the re-association onto nested pairs that
+    the harness applies to their values, indices and serialised states. *)
+Theorem C01_tuple3 : forall (A B C : Region) (SA : RSpec A), RegionOK A -> forall SB : RSpec B, RegionOK B ->
+  forall SC : RSpec C, RegionOK C -> RegionOK (tuple3 A B C).
+Proof. exact (@tuple3_ok). Qed.
+Theorem C01_tuple5 : forall (A B C D E : Region) (SA : RSpec A), RegionOK A -> forall SB : RSpec B, RegionOK B ->
+  forall SC : RSpec C, RegionOK C -> forall SD : RSpec D, RegionOK D -> forall SE : RSpec E, RegionOK E ->
+  RegionOK (tuple5 A B C D E).
+Proof. exact (@tuple5_ok). Qed.
+Theorem C01_tuple3_is_nested_pairs : forall (A B C : Region) (s : st (tuple3 A B C)) v i,
+  push (tuple2 A (tuple2 B C)) (nest3 s) (nest3 v) = rmap (fun p => (nest3 (fst p), nest3 (snd p))) (push (tuple3 A B C) s v) /\
+  read (tuple2 A (tuple2 B C)) (nest3 s) (nest3 i) = rmap nest3 (read (tuple3 A B C) s i) /\
+  nest3 (clear (tuple3 A B C) s) = clear (tuple2 A (tuple2 B C)) (nest3 s).
+Proof.
+  intros A B C s v i. split; [|split].
+  - exact (iso_push (tuple3_iso A B C) s v).
+  - exact (iso_read (tuple3_iso A B C) s i).
+  - exact (iso_clear (tuple3_iso A B C) s).
+Qed.
 Theorem C01_slice : forall (R : Region) (O : IC (idx R)) (SP : RSpec R), RegionOK R -> forall HO : ICOk O,
   RegionOK (slice R O).
 Proof. exact (@slice_ok). Qed.
